@@ -132,6 +132,7 @@ func c18Queries() []c18Query {
 	var qs []c18Query
 	for _, p := range c18Paths {
 		qs = append(qs, c18Query{"open", p})
+		qs = append(qs, c18Query{"readfile", p})
 	}
 	for _, p := range []string{".", "d", "a", "e", "zz"} {
 		qs = append(qs, c18Query{"readdir", p})
@@ -214,6 +215,25 @@ func c18Eval(layers []c18Layer, q c18Query) *Case {
 			}
 		}
 		c.Oracle = cmpVerdict("open-first-layer", want, impl)
+	case "readfile":
+		// the way the loader, the template functions and the markdown package read sources
+		b, err := fs.ReadFile(ov, q.arg)
+		impl := map[string]any{"ok": false}
+		if err == nil {
+			impl = map[string]any{"ok": true, "content": string(b)}
+		}
+		c.Impl = impl
+		want := map[string]any{"ok": false}
+		for i := range layers {
+			if e := lookAt(i, q.arg); e != nil {
+				if f, isFile := e["file"]; isFile {
+					want = map[string]any{"ok": true, "content": f}
+				}
+				c.Key = fmt.Sprintf("readfile:%s:first=%d/%d:%v", q.arg, i, len(layers), e["file"] != nil)
+				break
+			}
+		}
+		c.Oracle = cmpVerdict("readfile-first-layer", want, impl)
 	case "readdir":
 		ents, err := ov.ReadDir(q.arg)
 		var impl map[string]any
